@@ -83,6 +83,12 @@ class KGFnWrapper:
         # Use provided symbol name (cached) or search for it
         self._sym = sym if sym is not None else self._find_symbol(fn)
 
+    def _to_klong_list(self, x):
+        # nested / ragged / mixed lists (e.g. decoded JSON) are Klong lists too: let the backend build the
+        # array the way list literals are built instead of np.asarray, which rejects ragged input
+        backend = getattr(self.klong, "_backend", None)
+        return backend.kg_asarray(x) if backend is not None else np.asarray(x)
+
     def _find_symbol(self, fn):
         """Find which symbol this function is currently bound to"""
         if not isinstance(fn, KGFn) or isinstance(fn, KGCall):
@@ -107,7 +113,7 @@ class KGFnWrapper:
                     # Use the current definition
                     if len(args) != current.arity:
                         raise RuntimeError(f"Klong function called with {len(args)} but expected {current.arity}")
-                    fn_args = [np.asarray(x) if isinstance(x, list) else x for x in args]
+                    fn_args = [self._to_klong_list(x) if isinstance(x, list) else x for x in args]
                     return self.klong.call(KGCall(current.a, [*fn_args], current.arity))
             except KeyError:
                 # Symbol was deleted, fall through to original function
@@ -115,7 +121,7 @@ class KGFnWrapper:
 
         if len(args) != self.fn.arity:
             raise RuntimeError(f"Klong function called with {len(args)} but expected {self.fn.arity}")
-        fn_args = [np.asarray(x) if isinstance(x, list) else x for x in args]
+        fn_args = [self._to_klong_list(x) if isinstance(x, list) else x for x in args]
         return self.klong.call(KGCall(self.fn.a, [*fn_args], self.fn.arity))
 
 
